@@ -224,6 +224,8 @@ impl AppendLocation {
                 // start on a new line: the file may end with a single line comment
                 token.push_trailing_trivia(TriviaKind::Whitespace.with_content("\n"));
                 token.push_trailing_trivia(TriviaKind::Comment.with_content(comment));
+                // a comment may still follow at the very end of the file
+                token.push_trailing_trivia(TriviaKind::Whitespace.with_content("\n"));
             }
         }
     }
